@@ -400,13 +400,15 @@ def verify_signable(signable, authorized_pub_keys, threshold, gpg=False):
     #          other logging purposes.
     good_sigs_from_trusted_keys = {}
 
+    # Note: the diagnostics below print attacker-controlled text, so they use
+    # ascii(): it cannot fail on any stdout encoding or on lone surrogates.
     for pubkey_hex, signature in signable["signatures"].items():
         # Validate the signature data first (make sure it looks right).
         if not is_hex_key(pubkey_hex):
             # TODO: ✅ Make this a warning instead.
             print(
                 'Ignoring signature from "key" with public key value that '
-                "does not look like a key value: " + str(pubkey_hex)
+                "does not look like a key value: " + ascii(pubkey_hex)
             )
             continue
 
@@ -414,7 +416,7 @@ def verify_signable(signable, authorized_pub_keys, threshold, gpg=False):
             # TODO: ✅ Make this a warning instead.
             print(
                 'Ignoring "signature" that does not look like a gpg '
-                "signature value: " + str(signature)
+                "signature value: " + ascii(signature)
             )
             continue
 
@@ -422,7 +424,7 @@ def verify_signable(signable, authorized_pub_keys, threshold, gpg=False):
             # TODO: ✅ Make this an INFO-level log message.
             print(
                 'Ignoring signature from a key ("'
-                + str(pubkey_hex)
+                + ascii(pubkey_hex)
                 + '") that is not authorized to sign this metadata.'
             )
             continue
@@ -432,7 +434,7 @@ def verify_signable(signable, authorized_pub_keys, threshold, gpg=False):
                 # TODO: ✅ Make this a warning instead.
                 print(
                     'Ignoring "signature" that does not look like a hex '
-                    "signature value: " + str(signature)
+                    "signature value: " + ascii(signature)
                 )
                 continue
 
